@@ -324,6 +324,24 @@ def run_case(case):
     d = tree_diff(want, got)
     if d:
         return Outcome(classes, nt, fail="XML tree differs from the layout tree: %s; %s" % (d, desc()))
+    if case.get("select_none"):
+        # a page selection that matches nothing: the hierarchy has no page, the XML is still a well-formed document
+        # with the (empty) root element, the text output is empty
+        try:
+            fx, ft = io.StringIO(), io.StringIO()
+            none = [len(case["pages"]) + 3]
+            extract_text_to_fp(io.BytesIO(pdf), fx, output_type="xml", codec=None, laparams=la, page_numbers=none)
+            extract_text_to_fp(io.BytesIO(pdf), ft, output_type="text", laparams=la, page_numbers=none)
+            r0 = ET.fromstring(fx.getvalue())
+        except ET.ParseError as e:
+            return Outcome(classes, nt, fail="XML output for an empty page selection is not well-formed: %s; output %r; %s" % (
+                e, fx.getvalue()[:80], desc()))
+        except Exception as e:
+            return Outcome(classes, nt, fail="empty page selection raised %s: %s; %s" % (type(e).__name__, e, desc()))
+        if r0.tag != "pages" or len(r0) != 0 or ft.getvalue() != "":
+            return Outcome(classes, nt, fail="empty page selection: XML root %r with %d children, text %r; %s" % (
+                r0.tag, len(r0), ft.getvalue()[:40], desc()))
+        classes.append("empty-selection")
     return Outcome(classes, nt, sample={"alphabet": case["alphabet"][:8], "la": case["la"], "sink": sink,
                                         "fontname": case["fontname"], "forms": [f["name"] for f in case.get("forms", [])]})
 
@@ -397,7 +415,7 @@ def cases(draw):
         except UnicodeEncodeError:
             pass
     return {"alphabet": alphabet, "fontname": fontname, "forms": forms, "pages": pages, "output": output,
-            "zero_widths": draw(st.booleans()),
+            "zero_widths": draw(st.booleans()), "select_none": draw(st.integers(0, 3)) == 0,
             "la": draw(st.sampled_from(["none", "default", "default", "all_texts", "flow_none", "vertical"])),
             "sink": draw(st.sampled_from(sinks)), "strip": strip if output == "xml" else False}
 
